@@ -958,9 +958,9 @@ def gen_proc_spec(rng, kind=None):
         spec["detectors"] = dets
         if spec["filter"] is None and rng.random() < 0.5:
             spec["filter"] = 1
-    if spec["filter"] is None and h_phot:
-        # the automatic default of a perfect source counts the heralded photons twice (a C04 finding, not this
-        # property): give the value the default is meant to have
+    if spec["filter"] is None and h_phot and (spec["detectors"] or rng.random() < 0.5):
+        # half of the time leave the automatic default of a perfect source in place (= the photons outside the
+        # heralded modes; it used to count the heralded photons twice: C04, fixes/C04-auto-filter-heralds.diff)
         spec["filter"] = n_user if not spec["detectors"] else 1
     # heralds on a threshold detector must be 0/1
     for h, v in spec["heralds"].items():
@@ -1011,7 +1011,8 @@ def legal_sample(spec, st):
         return f"holds {sum(full)} photons, at most {n_max} can be emitted"
     if not spec["noise"] and not spec["detectors"] and sum(full) != n_in:
         return f"holds {sum(full)} photons for a lossless {n_in}-photon input"
-    filt = spec["filter"] if spec["filter"] is not None else (n_in if not spec["noise"] else 0)
+    # automatic default of a perfect source: every photon outside the heralded modes
+    filt = spec["filter"] if spec["filter"] is not None else (n_in - sum(her.values()) if not spec["noise"] else 0)
     if sum(st) < filt:
         return (f"holds {sum(st)} photons outside the heralded modes, below min_detected_photons_filter={filt} "
                 f"(which does not count heralded modes)")
